@@ -168,6 +168,19 @@ CHECKS.update({
         design="DESIGN.md §1 C18"),
 })
 
+CHECKS.update({
+    "C15": _trav("C15", "The graph is the one the real intertest_setup.update builds (clean/run/skip graphs, flag_children/flag_intersection, bridging) entered through the selftests' job seam; TestRunner.run_workers hands it to the scheduler. Monitor: the executed setup tests are exactly the producers of the states on the from..to path of each selected vm (creation steps iff install is on the path), every unset request is for a state of a selected vm derived from the target state, every derived state is removed on every worker, nothing of other vms; nonexistent from/to states raise ValueError. Menu: six (from,to) pairs, vm1 / vm1+vm2, 1-2 workers."),
+    "C20": dict(
+        category="other",
+        technique="solver-chosen step outcomes through the real Manu.run + tool graphs built by the real intertest_setup code explored under solver-chosen schedules",
+        text=("(a) the real Manu.run with command line parsing and tool loading stubbed and the chain steps replaced by stubs whose outcome (None, 0, 1, raises) is solver-chosen, chains of length <= 3 (4) incl. a repeated step: "
+              "every step is called once per occurrence, in order, with tag 0m<i>, return code 1 iff some step failed (exhaustive). (b) the graphs the real _parse_and_iterate_for_objects_and_workers / "
+              "_parse_one_node_for_all_objects_per_worker build for get/unset/boot (thorough: check/set/push/pop/shutdown, restricted worker) are traversed under solver-chosen schedules and outcomes: exactly one "
+              "execution per (selected vm, compatible worker) carrying the step's parameters and vm_action, none for unselected vms."),
+        note="Step functions and the command line front end are stubs in (a); (b) shares the traversal trusted base; vm selections and worker sets from a menu (L1).",
+        design="DESIGN.md §1 C20", engine="symx+vsched"),
+})
+
 NOT_APPLICABLE = {
     "C07": "Both sides of 'parsed edges = edges declared in the configuration' are functions of concrete configuration text through virttest's Cartesian parser (2200 lines of text processing outside /repo) which cannot be executed on symbolic strings within reach; deciding it would be differential testing over enumerated selections, a different technique. See DESIGN.md §2.",
 }
